@@ -46,7 +46,11 @@ def cases(tier, seed):
     for x in arrays_2d(b['rows_2d']):
         for y in arrays_2d(b['rows_2d']):
             yield ('2d', x, y, seed)
-    for nx, ny in ((50, 50), (50, 200), (120, 60)):
+    # mixed dtypes: non-integer float x against integer-typed y (and the reverse)
+    for x in arrays_1d(min(b['rows_1d'], 3)):
+        for y in arrays_1d(min(b['rows_1d'], 3)):
+            yield ('1d-mixed', x, y, seed)
+    for nx, ny in ((50, 50), (50, 200), (120, 60), (129, 140), (300, 300), (600, 257)):
         for nf in (1, 2, 3, 4):
             for px, py in ((1, 1), (7, 1), (1, 11), (7, 11), (13, 3), (3, 17)):
                 yield ('big', (nx, ny, nf), (px, py), seed)
@@ -61,6 +65,10 @@ def build(case):
     if kind == '1d':
         lv = np.array(LEVELS[seed % len(LEVELS)], dtype=float)
         return lv[list(a)], lv[list(b)]
+    if kind == '1d-mixed':
+        xf = np.array((0.4, 0.9, 2.1, 2.9, 3.6))[list(a)]
+        yi = np.array((0, 1, 2, 3, 10), dtype=np.int64)[list(b)]
+        return (xf, yi) if seed % 2 == 0 else (yi.copy(), xf.copy())
     if kind == '2d':
         pts = np.array(list(itertools.product((0.0, 1.0), repeat=2)))
         return pts[list(a)], pts[list(b)]
@@ -88,8 +96,8 @@ def build(case):
 def check_case(case):
     from emd.cycles import kdt_match
     x, y = build(case)
-    X = x[:, None] if x.ndim == 1 else x
-    Y = y[:, None] if y.ndim == 1 else y
+    X = (x[:, None] if x.ndim == 1 else x).astype(float)
+    Y = (y[:, None] if y.ndim == 1 else y).astype(float)
     D = np.sqrt(((X[:, None, :] - Y[None, :, :]) ** 2).sum(axis=2))
     viols = []
     trans = 0
@@ -164,6 +172,6 @@ def snippet(case, kind):
 
 
 def nonvacuity(rep, ctx):
-    if not {'1d', '2d', 'big'} <= set(rep.classes):
+    if not {'1d', '2d', 'big', '1d-mixed'} <= set(rep.classes):
         return ['vacuous: outcome classes %r' % dict(rep.classes)]
     return []
